@@ -153,11 +153,11 @@ Print Assumptions C10_strict_order_checker_sound.
    chain) is not strictly farther from the roots of the item / entity graph than the other provider.  resolve
    chooses the end of the chain by BreadthSort rank, chains the wrong provider last and answers
    "topological sort failure" for a set that has a strict order. *)
-Theorem C10_chained_shallow_second_refuted : exists ch dis items good,
+Theorem C10_chained_not_farther_refuted : exists ch dis items good,
   domain_okb dis items = true /\ region_of items = RRenames /\ shallow_secondb items = true /\
   resolve ch dis items = Err SortFailure /\ chain_order_ok items good = true.
 Proof. exact chained_shallow_refuted. Qed.
-Print Assumptions C10_chained_shallow_second_refuted.
+Print Assumptions C10_chained_not_farther_refuted.
 
 (* non-vacuity: a cascade of four doubly provided entities outside the region is resolved, strictly *)
 Example C10_ex_cascade_strict : region_of w_cascade44 = RSeveral /\ shallow_secondb w_cascade44 = false /\
